@@ -44,6 +44,8 @@ structure GM (S : Nat) (flat : List Nat) (sec : Nat → Nat) (a : Alloc) (m : Me
   g3i : ∀ id j, j < S → m.img id j ≠ 0 → id < a.nextId ∧ sec id * S + j < total S a
   g4d : ∀ s j, j < S → m.dev s j = 0 ∨ Good S flat (m.dev s j) s j
   g4i : ∀ id j, j < S → m.img id j = 0 ∨ Good S flat (m.img id j) (sec id) j
+  /-- every `WriteAt` so far covered at least one sector and started its last sector below the allocation frontier -/
+  glog : ∀ e, e ∈ m.wlog → 0 < e.2 ∧ (e.1 + e.2) * S < total S a + S
 
 /-- What one writer step may do to the memory. -/
 structure Eff (S : Nat) (flat : List Nat) (sec : Nat → Nat) (a : Alloc) (ws : List Wr) (m m' : Mem) : Prop where
@@ -54,9 +56,10 @@ structure Eff (S : Nat) (flat : List Nat) (sec : Nat → Nat) (a : Alloc) (ws : 
           ((∀ j, j < S → Good S flat (m'.dev s j) s j) ∧ s * S + S ≤ total S a ∧
             ∃ r, r ∈ ws ∧ r.start ≤ s * S ∧ s * S + S ≤ r.start + r.data.length) ∨
           (∃ id, id < a.nextId ∧ sec id = s ∧ ∀ j, j < S → m'.dev s j = m'.img id j)
+  log : ∃ new, m'.wlog = new ++ m.wlog ∧ ∀ e, e ∈ new → 0 < e.2 ∧ (e.1 + e.2) * S < total S a + S
 
 theorem Eff.refl {S flat sec a ws} (m : Mem) : Eff S flat sec a ws m m :=
-  ⟨rfl, fun _ _ _ => Or.inl rfl, fun _ => Or.inl fun _ _ => rfl⟩
+  ⟨rfl, fun _ _ _ => Or.inl rfl, fun _ => Or.inl fun _ _ => rfl, [], rfl, fun _ h => by simp at h⟩
 
 /-- Good bytes stay good, in images and on the device. -/
 def Mono (S : Nat) (flat : List Nat) (sec : Nat → Nat) (a : Alloc) (m m' : Mem) : Prop :=
@@ -92,7 +95,14 @@ theorem Eff.gm {S flat sec a ws m m'} (ga : GA S sec a ws) (gm : GM S flat sec a
     rcases e.img id j hj with h | h
     · rw [h]; exact gm.g4i id j hj
     · exact Or.inr h.1
-  refine ⟨?_, ?_, hi, ?_, h4i⟩
+  have hlog : ∀ x, x ∈ m'.wlog → 0 < x.2 ∧ (x.1 + x.2) * S < total S a + S := by
+    obtain ⟨new, hn, hnew⟩ := e.log
+    intro x hx
+    rw [hn] at hx
+    rcases List.mem_append.mp hx with h | h
+    · exact hnew x h
+    · exact gm.glog x h
+  refine ⟨?_, ?_, hi, ?_, h4i, hlog⟩
   rotate_right
   · intro s j hj
     rcases e.dev s with h | h | ⟨id, hid, hs, h⟩
@@ -171,7 +181,7 @@ theorem stage3_spec (hS : 0 < S) (hm : m.S = S)
     (wp : WP S flat sec a.nextId m w start data c) (hf : w.firstImg = none) (hpart : w.part = [])
     (hp : ∀ i, i < p.length → p.getD i 0 = data.getD (c + i) 0) (hpl : c + p.length ≤ data.length) :
     Eff S flat sec a ws m (w.stage3 m p).1 ∧ WP S flat sec a.nextId (w.stage3 m p).1 (w.stage3 m p).2 start data (c + p.length) := by
-  obtain ⟨mS, dev, img⟩ := m
+  obtain ⟨mS, dev, img, wl⟩ := m
   have hm' : S = mS := hm.symm
   subst hm'
   obtain ⟨h1, _, _, _, h4⟩ := wp.ph2 hf
@@ -196,7 +206,17 @@ theorem stage3_spec (hS : 0 < S) (hm : m.S = S)
   unfold W.stage3
   simp only [hpart, List.nil_append]
   constructor
-  · refine ⟨?_, fun _ _ _ => ?_, fun s => ?_⟩
+  · have hlog : ∃ new, (if p.length / S > 0 then (w.off, p.length / S) :: wl else wl) = new ++ wl ∧
+        ∀ e, e ∈ new → 0 < e.2 ∧ (e.1 + e.2) * S < total S a + S := by
+      by_cases hc : p.length / S > 0
+      · rw [if_pos hc]
+        refine ⟨[(w.off, p.length / S)], rfl, fun e he => ?_⟩
+        simp only [List.mem_singleton] at he
+        subst he
+        have hoff : (w.off + p.length / S) * S = w.off * S + p.length / S * S := Nat.add_mul _ _ _
+        exact ⟨hc, by dsimp only; omega⟩
+      · rw [if_neg hc]; exact ⟨[], rfl, fun _ h => by simp at h⟩
+    refine ⟨?_, fun _ _ _ => ?_, fun s => ?_, hlog⟩
     · rfl
     · exact Or.inl rfl
     · by_cases hc : p.length / S > 0
@@ -264,7 +284,7 @@ theorem stage2_spec (hS : 0 < S) (hm : m.S = S)
       (∀ i, i < (w.stage2 m p).2.2.1.length → (w.stage2 m p).2.2.1.getD i 0 = data.getD (c' + i) 0) ∧
       ((w.stage2 m p).2.2.2 = true → (w.stage2 m p).2.2.1 = []) ∧
       ((w.stage2 m p).2.2.2 = false → (w.stage2 m p).2.1.part = []) := by
-  obtain ⟨mS, dev, img⟩ := m
+  obtain ⟨mS, dev, img, wl⟩ := m
   have hm' : S = mS := hm.symm
   subst hm'
   obtain ⟨h1, h2, h2', h3, h4⟩ := wp.ph2 hf
@@ -319,7 +339,8 @@ theorem stage2_spec (hS : 0 < S) (hm : m.S = S)
         unfold Good
         rw [hel j (by omega), ← hF _ (by omega)]
         congr 1; omega
-      refine ⟨⟨rfl, fun _ _ _ => Or.inl rfl, fun s => ?_⟩, hf, c + n,
+      have hoff1 : (w.off + 1) * S = w.off * S + S := by rw [Nat.add_mul, Nat.one_mul]
+      refine ⟨⟨rfl, fun _ _ _ => Or.inl rfl, fun s => ?_, [(w.off, 1)], rfl, fun e he => by simp only [List.mem_singleton] at he; subst he; exact ⟨Nat.one_pos, by dsimp only; omega⟩⟩, hf, c + n,
         ⟨by omega, ?_, ?_, wp.last1, wp.last0⟩, ?_, hdrop, ?_, ?_⟩
       · by_cases hs : s = w.off
         · subst hs
@@ -365,7 +386,7 @@ theorem stage1_spec (hS : 0 < S) (hm : m.S = S)
       (∀ i, i < (w.stage1 m p).2.2.1.length → (w.stage1 m p).2.2.1.getD i 0 = data.getD (c' + i) 0) ∧
       ((w.stage1 m p).2.2.2 = true → (w.stage1 m p).2.2.1 = []) ∧
       ((w.stage1 m p).2.2.2 = false → (w.stage1 m p).2.1.firstImg = none) := by
-  obtain ⟨mS, dev, img⟩ := m
+  obtain ⟨mS, dev, img, wl⟩ := m
   have hm' : S = mS := hm.symm
   subst hm'
   unfold W.stage1
@@ -421,7 +442,7 @@ theorem stage1_spec (hS : 0 < S) (hm : m.S = S)
       · simp only [setAt, hid, if_false]; exact Or.inl trivial
     by_cases hlt : w.firstOff + n < S
     · simp only [hlt, if_true]
-      refine ⟨⟨rfl, heffimg, fun _ => Or.inl fun _ _ => rfl⟩, c + n, ⟨by omega, ?_, ?_, wp.last1, wp.last0⟩, ?_, hdrop, ?_, ?_⟩
+      refine ⟨⟨rfl, heffimg, fun _ => Or.inl fun _ _ => rfl, [], rfl, fun _ h => by simp at h⟩, c + n, ⟨by omega, ?_, ?_, wp.last1, wp.last0⟩, ?_, hdrop, ?_, ?_⟩
       · intro id' h
         dsimp only at h ⊢
         cases h
@@ -438,7 +459,7 @@ theorem stage1_spec (hS : 0 < S) (hm : m.S = S)
     · simp only [hlt, if_false]
       have hfull : w.firstOff + n = S := by omega
       have hoff : (w.off + 1) * S = w.off * S + S := by rw [Nat.add_mul, Nat.one_mul]
-      refine ⟨⟨rfl, heffimg, fun s => ?_⟩, c + n, ⟨by omega, ?_, ?_, wp.last1, wp.last0⟩, ?_, hdrop, ?_, ?_⟩
+      refine ⟨⟨rfl, heffimg, fun s => ?_, [(w.off, 1)], rfl, fun e he => by simp only [List.mem_singleton] at he; subst he; exact ⟨Nat.one_pos, by dsimp only; omega⟩⟩, c + n, ⟨by omega, ?_, ?_, wp.last1, wp.last0⟩, ?_, hdrop, ?_, ?_⟩
       · by_cases hs : s = w.off
         · subst hs
           refine Or.inr (Or.inr ⟨id, g1, g2, fun j _ => ?_⟩)
@@ -532,7 +553,7 @@ theorem flush_spec (hS : 0 < S) (hm : m.S = S)
     (hB : start + data.length ≤ total S a)
     (ga : GA S sec a ws) (wp : WP S flat sec a.nextId m w start data data.length) :
     Eff S flat sec a ws m (w.flush m) ∧ Done S flat (w.flush m) start data := by
-  obtain ⟨mS, dev, img⟩ := m
+  obtain ⟨mS, dev, img, wl⟩ := m
   have hm' : S = mS := hm.symm
   subst hm'
   unfold W.flush
@@ -564,7 +585,7 @@ theorem flush_spec (hS : 0 < S) (hm : m.S = S)
       subst hid
       rw [g6, setRange_nil]
       have hoff : (w.off + 1) * S = w.off * S + S := by rw [Nat.add_mul, Nat.one_mul]
-      refine ⟨⟨rfl, fun id' j _ => Or.inl ?_, fun s => ?_⟩, ?_⟩
+      refine ⟨⟨rfl, fun id' j _ => Or.inl ?_, fun s => ?_, [(w.off, 1)], rfl, fun e he => by simp only [List.mem_singleton] at he; subst he; exact ⟨Nat.one_pos, by dsimp only; omega⟩⟩, ?_⟩
       · unfold setAt
         dsimp only
         by_cases h : id' = lid
@@ -598,7 +619,8 @@ theorem flush_spec (hS : 0 < S) (hm : m.S = S)
         intro j hj
         unfold setRange
         rw [if_neg (by omega)]
-      refine ⟨⟨rfl, fun id' j hj => ?_, fun s => ?_⟩, ?_⟩
+      have hoff1 : (w.off + 1) * S = w.off * S + S := by rw [Nat.add_mul, Nat.one_mul]
+      refine ⟨⟨rfl, fun id' j hj => ?_, fun s => ?_, [(w.off, 1)], rfl, fun e he => by simp only [List.mem_singleton] at he; subst he; exact ⟨Nat.one_pos, by dsimp only; omega⟩⟩, ?_⟩
       · by_cases hid : id' = lid
         · subst hid
           simp only [setAt, if_true]
